@@ -329,3 +329,175 @@ def sh1(proj, rep, func_quals):
             rep.ok('SH1', q, f'{se.nops} elementwise operations typed; the batch axis is never aligned with a non-batch axis', m, fi.node, text=f'{q} batch axis')
     rep.count('SH1.elementwise_ops_typed', total)
     return len(func_quals), total
+
+
+# ------------------------------------------------------------------------------------------------ SH2
+RULE_SH2 = ('SH2: in the Euler-Hurwitz recursion every `concat([...], axis=1).reshape(batch, W, 1)` has exactly W columns for EVERY '
+            'admissible block width N0 = theta_i.shape[1]: the piece widths are evaluated as exact functions of N0 (Python slice semantics, '
+            'broadcasting, concatenation) over the admissible range, which is read from the block list `arange(dim-rank, dim)` and the '
+            'constructor assertion on rank (rank==dim admits the empty block N0 = 0) minus the widths excluded by a guard such as '
+            '`if N0==0: ...; continue`.')
+
+_ELEM1 = {'cos', 'sin', 'exp', 'cumsum', 'cumprod', 'conj', 'abs', 'sqrt'}
+
+
+class _WidthEval:
+    """width (size of axis 1) of the 2-d arrays of one loop body, as a function of N (the block width)."""
+
+    def __init__(self, env, N):
+        self.env, self.N = env, N
+
+    def const(self, e):
+        if e is None:
+            return None
+        try:
+            return int(eval(compile(ast.Expression(e), '<w>', 'eval'), {'__builtins__': {}}, {'N0': self.N}))
+        except Exception:
+            raise _Unknown(ast.unparse(e))
+
+    def w(self, e):
+        if isinstance(e, ast.Name):
+            if e.id in self.env:
+                return self.env[e.id]
+            raise _Unknown(e.id)
+        if isinstance(e, ast.Constant):
+            return 'scalar'
+        if isinstance(e, ast.UnaryOp):
+            return self.w(e.operand)
+        if isinstance(e, ast.BinOp):
+            a, b = self.w(e.left), self.w(e.right)
+            if a == 'scalar':
+                return b
+            if b == 'scalar':
+                return a
+            if a == b or b == 1:
+                return a
+            if a == 1:
+                return b
+            raise _Mismatch(f'`{ast.unparse(e)[:70]}` combines widths {a} and {b}')
+        if isinstance(e, ast.Subscript):
+            base = self.w(e.value)
+            sl = e.slice
+            if isinstance(sl, ast.Tuple) and len(sl.elts) >= 2 and isinstance(sl.elts[0], ast.Slice) and isinstance(sl.elts[1], ast.Slice):
+                s1 = sl.elts[1]
+                if s1.step is not None:
+                    raise _Unknown('step')
+                return len(range(base)[slice(self.const(s1.lower), self.const(s1.upper))])
+            raise _Unknown(ast.unparse(e))
+        if isinstance(e, ast.Call):
+            f = e.func
+            name = f.attr if isinstance(f, ast.Attribute) else getattr(f, 'id', '')
+            if name in _ELEM1 and e.args:
+                return self.w(e.args[0])
+            if name in ('concat', 'concatenate', 'cat') and e.args and isinstance(e.args[0], (ast.List, ast.Tuple)):
+                ax = _axis(e)
+                if ax != 1:
+                    raise _Unknown('axis')
+                return sum(self.w(x) for x in e.args[0].elts)
+            if name in ('zeros', 'ones'):
+                shp = e.args[0] if e.args else None
+                elts = shp.elts if isinstance(shp, (ast.Tuple, ast.List)) else e.args
+                if len(elts) >= 2:
+                    return self.const(elts[1])
+            raise _Unknown(ast.unparse(e)[:40])
+        raise _Unknown(ast.unparse(e)[:40])
+
+
+class _Unknown(Exception):
+    pass
+
+
+class _Mismatch(Exception):
+    pass
+
+
+def _excluded_widths(body, upto, name):
+    """widths excluded by `if N0==k: ...; continue` guards that precede statement index `upto`"""
+    out = set()
+    for st in body[:upto]:
+        if isinstance(st, ast.If) and isinstance(st.test, ast.Compare) and len(st.test.ops) == 1 and isinstance(st.test.ops[0], ast.Eq) \
+                and isinstance(st.test.left, ast.Name) and st.test.left.id == name and isinstance(st.test.comparators[0], ast.Constant) \
+                and st.body and isinstance(st.body[-1], (ast.Continue, ast.Return, ast.Raise)) and not st.orelse:
+            out.add(st.test.comparators[0].value)
+    return out
+
+
+def sh2(proj, rep):
+    rep.rule('SH2', RULE_SH2)
+    n = 0
+    # admissible minimum width: blocks are arange(dim-rank, dim); the class admits rank<=dim
+    ci = proj.cls('numqi.manifold._stiefel.Stiefel')
+    init = ci.methods['__init__'].node
+    asserts = [ast.unparse(s.test).replace(' ', '') for s in ast.walk(init) if isinstance(s, ast.Assert)]
+    if any('rank<=dim' in a for a in asserts):
+        wmin = 0
+    elif any('rank<dim' in a for a in asserts):
+        wmin = 1
+    else:
+        rep.undecided('SH2', 'numqi.manifold._stiefel.Stiefel.__init__', 'no assertion relating rank and dim: admissible block widths unknown',
+                      ci.module, init, text='rank/dim assertion')
+        return 0
+    for q in ('numqi.manifold._stiefel._to_stiefel_euler_real', 'numqi.manifold._stiefel._to_stiefel_euler_complex'):
+        fi = proj.func(q)
+        m = fi.module
+        rep.touch(m)
+        blocks = [s for s in ast.walk(fi.node) if isinstance(s, ast.Assign) and 'np.arange(dim-rank,dim)' in ast.unparse(s.value).replace(' ', '')]
+        if not blocks:
+            rep.undecided('SH2', q, 'block widths are no longer `arange(dim-rank, dim)`', m, fi.node, text='block list')
+            continue
+        for loop in [s for s in ast.walk(fi.node) if isinstance(s, ast.For) and 'theta_list' in ast.unparse(s.iter)]:
+            tnames = [x.id for x in ast.walk(loop.target) if isinstance(x, ast.Name)]
+            wname = None
+            for idx, st in enumerate(loop.body):
+                if isinstance(st, ast.Assign) and isinstance(st.targets[0], ast.Name) and ast.unparse(st.value).replace(' ', '') in {f'{t}.shape[1]' for t in tnames}:
+                    wname = st.targets[0].id
+            if wname is None:
+                rep.undecided('SH2', q, 'block width variable not found', m, loop, text='N0')
+                continue
+            for idx, st in enumerate(loop.body):
+                if not (isinstance(st, ast.Assign) and isinstance(st.targets[0], ast.Name)):
+                    continue
+                v = st.value
+                if not (isinstance(v, ast.Call) and isinstance(v.func, ast.Attribute) and v.func.attr == 'reshape' and len(v.args) == 3):
+                    continue
+                n += 1
+                excl = _excluded_widths(loop.body, idx, wname)
+                dom = [k for k in range(wmin, 7) if k not in excl]
+                bad = None
+                try:
+                    for N in dom:
+                        env = {t: N for t in tnames}
+                        for st2 in loop.body[:idx]:
+                            if isinstance(st2, ast.Assign) and isinstance(st2.targets[0], ast.Name) and st2.targets[0].id != wname:
+                                try:
+                                    env[st2.targets[0].id] = _WidthEval(env, N).w(st2.value)
+                                except _Unknown:
+                                    env.pop(st2.targets[0].id, None)
+                        ev = _WidthEval(env, N)
+                        try:
+                            got = ev.w(v.func.value)
+                        except _Mismatch as ex:
+                            bad = (N, str(ex))
+                            break
+                        want = _WidthEval({}, N)
+                        want_w = eval(compile(ast.Expression(v.args[1]), '<w>', 'eval'), {'__builtins__': {}}, {wname: N})
+                        if got != want_w:
+                            bad = (N, f'the concatenated pieces have {got} columns but the reshape asks for {want_w}')
+                            break
+                except _Unknown as ex:
+                    rep.undecided('SH2', q, f'`{ast.unparse(st)[:70]}`: width of `{ex}` not understood', m, st)
+                    n -= 1
+                    continue
+                except Exception as ex:
+                    rep.undecided('SH2', q, f'`{ast.unparse(st)[:70]}`: {type(ex).__name__}', m, st)
+                    n -= 1
+                    continue
+                if bad:
+                    N, why = bad
+                    what = 'rank==dim, the empty first block' if N == 0 else f'block width {N}'
+                    rep.violation('SH2', q, f'`{ast.unparse(st)[:90]}`: for {wname} = {N} ({what}) {why}: the map raises instead of returning a '
+                                  f'Stiefel point', m, st)
+                else:
+                    rep.ok('SH2', q, f'`{ast.unparse(st)[:60]}` has {ast.unparse(v.args[1])} columns for every {wname} in {dom[0]}..', m, st)
+    rep.count('SH2.reshape_sites', n)
+    return n
